@@ -253,6 +253,8 @@ func (c *CrossingEdgeQuery) getCells(a, b Point, root *PaddedCell) []*ShapeIndex
 // getCellsForEdge populates the cells field to the set of index cells intersected by an edge AB.
 func (c *CrossingEdgeQuery) getCellsForEdge(a, b Point) {
 	c.cells = nil
+	// Shapes may have been added to the index since this query was created.
+	c.index.maybeApplyUpdates()
 
 	segments := FaceSegments(a, b)
 	for _, segment := range segments {
